@@ -42,6 +42,8 @@ def run(ctx):
     ctx.floor("inv", "field range obligations", len(proven2), 1)
     # ---- validation rules named by the reviewed entries
     c05.side_rules(ctx, cg)
+    c05.side_rules_2(ctx)
+    c05.side_rules_3(ctx)
     validation_rules(ctx, cg)
     side = RV.SideConditions(ctx)
     # ---- A: the loader
